@@ -127,6 +127,20 @@ impl<'a, 'b> Syn<'a, 'b> {
             let (r, v) = lp[self.t.choose(lp.len())];
             return Expr::Str { raw: r.to_string(), value: v.to_vec() };
         }
+        if self.t.bool(45) {
+            // assembled value: crosses the generators' length / newline thresholds for the long
+            // bracket form, with carriage returns, tabs, quotes, `]]`, digits after control bytes
+            self.stat("assembled_string");
+            let pieces: [&[u8]; 18] = [
+                b"GET /index.html HTTP/1.1", b"\r\n", b"\n", b"\r", b"\t", b" ", b"Host: example", b"]]", b"]=]", b"'", b"\"", b"\\", b"\x01", b"7", b"\n\n\n\n\n\n", b"0123456789012345678901234567890123456789", b"--", b"\xc3\xa9",
+            ];
+            let n = 1 + self.t.choose(6);
+            let mut v: Vec<u8> = vec![];
+            for _ in 0..n {
+                v.extend_from_slice(pieces[self.t.choose(pieces.len())]);
+            }
+            return Expr::Str { raw: crate::luaprint::lit::plain_string(&v), value: v };
+        }
         let (r, v) = pool[self.t.choose(pool.len())];
         Expr::Str { raw: r.to_string(), value: v.to_vec() }
     }
